@@ -362,6 +362,8 @@ def _b3_sites(ctx):
     tree = ctx.P.cls(TREE)
     nsites = 0
     for f in tree.methods.values():
+        if ctx.absorbed(f):
+            continue
         cfgf = ctx.cfg(f)
         du = DefUse(cfgf)
         for n in cfgf.stmt_nodes():
@@ -375,13 +377,14 @@ def _b3_sites(ctx):
                 base = dotted(t.value)
                 if base is None:
                     continue
-                defs = du.reaching(n, base.split(".")[0])
-                is_index = any(d.kind == "with" and isinstance(d.value, ast.Call) and (dotted(d.value.func) or "").endswith("locked_index") for d in defs) \
-                    or any(d.value is not None and "open_index" in src(d.value) for d in defs)
+                from ..dataflow import origins as _orig
+                bo = _orig(du, n, ast.Name(id=base.split(".")[0], ctx=ast.Load()))
+                is_index = any(o.kind == "with" and isinstance(o.leaf, ast.Call) and (dotted(o.leaf.func) or "").endswith("locked_index") for o in bo) \
+                    or any(o.leaf is not None and "open_index" in src(o.leaf) for o in bo)
                 if not is_index:
                     continue
                 nsites += 1
-                locked = in_locked_index(n) and all(d.kind == "with" for d in defs)
+                locked = in_locked_index(n) and all(o.kind == "with" for o in bo)
                 obs.append(ctx.ob(locked, f.qualname, where(f, n), "index mutation under locked_index",
                                   "`%s` is inside `with locked_index(...)`" % node_desc(n),
                                   "`%s` mutates the git index outside `with locked_index(...)`" % node_desc(n)))
